@@ -59,7 +59,7 @@ def run(case):
     kw = {} if mod is None else {"mod": mod}
     kin = karr(keys, kd)
     vin = init if scalar_init else np.array(init, dtype=vdt)
-    TABLE = lib.Counter if (case.get("cls") == "Counter" and vdt.kind in "iu" and (scalar_init is False or isinstance(init, int))) else lib.HashTable
+    TABLE = lib.Counter if (case.get("cls") == "Counter" and (scalar_init is False or isinstance(init, int))) else lib.HashTable
     if TABLE is lib.Counter:
         tags.append("class:Counter")       # a Counter is a HashTable: everything the statement says about tables holds for it as well
     c = attempt(lambda: TABLE(kin, vin, **kw))
@@ -369,7 +369,11 @@ def gen_history(rng, tier, kd="pick", style=None, mod="pick", scalar_init=None, 
     def fresh(k=1):
         out = list(range(uniq[0], uniq[0] + k))
         uniq[0] += k
+        if vdtype == "float64" and (not scalar_init or isinstance(init, float)):
+            out = [x + 0.5 for x in out]          # float tables are assigned fractional values (an integer-typed detour would lose them)
         return out
+    fracfill = [False]
+    pristine = [True]       # no assignment / fill on table 't' so far: a scalar-initialised table is still in its compact scalar state
     ops = []
     ntables = 1
     nops = nops or rng.randint(1, 12 if tier == "quick" else 40)
@@ -378,6 +382,8 @@ def gen_history(rng, tier, kd="pick", style=None, mod="pick", scalar_init=None, 
         name = rng.choice(OPS)
         tb = rng.choice(["t"] + ["d%d" % i for i in range(1, ntables)]) if rng.random() < 0.35 else "t"
         op = {"op": name, "table": tb}
+        if tb == "t" and name not in ("get1", "getv", "getmiss", "contains", "hs_contains1", "hs_containsv", "getwide", "getreuse", "fill"):
+            pristine[0] = False        # anything but look-ups may spread the common value out per key (in the value's own type)
         if name == "get1" or name == "hs_contains1":
             op["key"] = rng.choice(keys) if name == "get1" or rng.random() < 0.5 else (nonkey() or keys[0])
             op["py"] = rng.random() < 0.5
@@ -409,8 +415,15 @@ def gen_history(rng, tier, kd="pick", style=None, mod="pick", scalar_init=None, 
             q = [rng.choice(keys)] if name == "set1" else rng.sample(keys, rng.randint(1, n))
             op["keys"] = q
             op["vals"] = fresh(len(q) if name == "setvv" else 1)
+            if tb == "t":
+                pristine[0] = False
         elif name == "fill":
             op["val"] = fresh()[0]
+            if scalar_init and pristine[0] and tb == "t" and rng.random() < 0.5:
+                op["val"] = rng.choice([2.5, 0.25, -1.5])
+                fracfill[0] = True          # a table that still holds one common value takes any value, whatever was looked up before
+            if tb == "t":
+                pristine[0] = pristine[0] and scalar_init
         elif name in ("contains", "hs_containsv"):
             wide = widenable and rng.random() < 0.3
             q = [rng.choice(keys) if rng.random() < 0.5 else (nonkey(wide and rng.random() < 0.5) or keys[0]) for _ in range(rng.randint(1, 6))]
@@ -430,8 +443,8 @@ def gen_history(rng, tier, kd="pick", style=None, mod="pick", scalar_init=None, 
             op["differ"] = None if rng.random() < 0.5 else rng.randrange(n)
         ops.append(op)
     c_ = {"keys": keys, "kdtype": kd, "mod": mod, "init": init, "vdtype": vdtype, "nonkeys": nonkeys, "ops": ops, "style": style}
-    if vdtype != "float64" and rng.random() < 0.15:
-        c_["cls"] = "Counter"
+    if rng.random() < 0.15 and (vdtype != "float64" or not scalar_init) and not fracfill[0]:
+        c_["cls"] = "Counter"          # (also with per-key float values: a Counter keeps what it is given)
     return c_
 
 
